@@ -31,25 +31,25 @@ type libRec struct {
 }
 
 type sim struct {
-	c      *vf.Ctx
-	name   string
-	n      int
-	w      *rig.World
-	nodes  []*rig.Client
-	byz    []bool
-	blocks []*blk
-	byHash map[string]int
-	know   []map[int]bool // node -> blocks delivered
-	inbox  [][]int
-	lpb    []uint64
-	lib    []libRec          // last observed LIB per node
-	maxLib []uint64          // highest LIB ever per node
-	fixed  []map[uint64]string // node -> height -> main-chain hash recorded when the height was <= LIB
-	trace  []string
-	r      *rand.Rand
+	c              *vf.Ctx
+	name           string
+	n              int
+	w              *rig.World
+	nodes          []*rig.Client
+	byz            []bool
+	blocks         []*blk
+	byHash         map[string]int
+	know           []map[int]bool // node -> blocks delivered
+	inbox          [][]int
+	lpb            []uint64
+	lib            []libRec            // last observed LIB per node
+	maxLib         []uint64            // highest LIB ever per node
+	fixed          []map[uint64]string // node -> height -> main-chain hash recorded when the height was <= LIB
+	trace          []string
+	r              *rand.Rand
 	honestConfirms bool
-	dead   bool
-	obs    int // monitor evaluations in this run
+	dead           bool
+	obs            int // monitor evaluations in this run
 }
 
 func main() {
@@ -78,11 +78,15 @@ func main() {
 	add(c.Pick(1, 4), cfg{-1, 0, false})
 	add(c.Pick(6, 60), cfg{-3, 0, false})
 	add(c.Pick(6, 60), cfg{-4, 0, false})
+	// reorganisations refused before execution (n<0, byz=9 marks the class)
+	firstFailed := len(runs)
+	add(c.Pick(2, 16), cfg{-3, 9, false})
+	add(c.Pick(2, 16), cfg{-4, 9, false})
 	var wg sync.WaitGroup
 	sem := make(chan struct{}, c.Pick(5, 5))
 	only := os.Getenv("C08_ONLY") // development: run a single run index
 	for i, rc := range runs {
-		if only != "" && only != fmt.Sprintf("r%d", i) && only != fmt.Sprintf("v%d", i) {
+		if only != "" && only != fmt.Sprintf("r%d", i) && only != fmt.Sprintf("v%d", i) && only != fmt.Sprintf("w%d", i) {
 			continue
 		}
 		wg.Add(1)
@@ -90,6 +94,10 @@ func main() {
 		go func(i int, rc cfg) {
 			defer wg.Done()
 			defer func() { <-sem }()
+			if rc.n < 0 && rc.byz == 9 {
+				failedReorg(c, i, i-firstFailed, -rc.n)
+				return
+			}
 			if rc.n < 0 {
 				collude(c, i, i-firstCollude, -rc.n)
 				return
@@ -98,7 +106,7 @@ func main() {
 		}(i, rc)
 	}
 	wg.Wait()
-	c.Finish("n in {1,3,4} node processes with the unmodified DPoS object (signature, producer set, slot owner, LIB) run on logical slots: the slot owner produces with the real producer path on its own best block; a seeded scheduler delivers, delays, reorders, drops (with later parents-first repair) and partitions; correct nodes skip slots; with n=4 one producer is Byzantine (equivocates in its slot on the same or different parents towards different node subsets, extends stale forks, optionally lies in the Confirms header field). After every delivery on every correct node: reported LIB never decreases, lies on the node's main chain, no main-chain block at or below any LIB ever reported changes afterwards, LIB is confirmed by blocks of > 2/3 distinct producers (also when the Byzantine producer inflates Confirms), LIBs of any two correct nodes lie on one branch of the global block tree; a restarted node reports the same LIB and best block; a block numbered at or below the LIB the node has reported, which the node does not have, is refused. Colluding-producer runs (agreement not claimed): all producers are scripted, one correct node is observed; a second branch is started at a root on the first chain, a prefix of it is stored while the root is still at or above the LIB, the first chain grows until the LIB has passed the root, then the rest of the second branch (longer) is delivered parents- or children-first: the main chain must not change when the root is below the LIB. A case = one evaluation of the monitors on a correct node (after a delivery, an own block, a restart); non-trivial = evaluation in a run in which LIB advanced beyond genesis; distinct = hash(run, evaluation index)",
+	c.Finish("n in {1,3,4} node processes with the unmodified DPoS object (signature, producer set, slot owner, LIB) run on logical slots: the slot owner produces with the real producer path on its own best block; a seeded scheduler delivers, delays, reorders, drops (with later parents-first repair) and partitions; correct nodes skip slots; with n=4 one producer is Byzantine (equivocates in its slot on the same or different parents towards different node subsets, extends stale forks, optionally lies in the Confirms header field). After every delivery on every correct node: reported LIB never decreases, lies on the node's main chain, no main-chain block at or below any LIB ever reported changes afterwards, LIB is confirmed by blocks of > 2/3 distinct producers (also when the Byzantine producer inflates Confirms), LIBs of any two correct nodes lie on one branch of the global block tree; a restarted node reports the same LIB and best block; a block numbered at or below the LIB the node has reported, which the node does not have, is refused. Colluding-producer runs (agreement not claimed): all producers are scripted, one correct node is observed; a second branch is started at a root on the first chain, a prefix of it is stored while the root is still at or above the LIB, the first chain grows until the LIB has passed the root, then the rest of the second branch (longer) is delivered parents- or children-first: the main chain must not change when the root is below the LIB. Failed-reorganisation runs: a side branch whose second block is signed by a producer that does not own its slot arrives while the best block has that block's height; the branch must not be adopted and every LIB reported afterwards must lie on the main chain. A case = one evaluation of the monitors on a correct node (after a delivery, an own block, a restart); non-trivial = evaluation in a run in which LIB advanced beyond genesis; distinct = hash(run, evaluation index)",
 		c.Pick(100, 2000),
 		"bounded: n<=4, f<=1, <=40 slots per run; agreement is explored, not proved",
 		"the Confirms header field is chosen by the producer: runs in which the Byzantine producer inflates it are a separate class (violation key suffix /inflated-confirms); all monitors apply to it")
